@@ -422,7 +422,10 @@ func TestVerif_C05(t *testing.T) {
 	r.Assume("block execution is driven directly (ExecuteBlock+AddBlock); transaction pool admission rules (minimum gas price, signature checks) are not part of the path")
 
 	var rc c05Case
-	if r.ReplayCase(&rc) {
+	if r.IsReplay() {
+		if !r.ReplayCase(&rc) || rc.Script == "" {
+			return // a case of another unit of this check
+		}
 		e := c05Open(r)
 		defer e.l.Close()
 		if rc.LimSym != "codelen-1" {
